@@ -66,7 +66,11 @@ Corpus == {
   \* the SAME child named twice with another one in between, no repetition indicator: (a, b, a), (a, b?, a), (a, (b | e), a)
   <<"seq", <<1, 1>>, El("a", "string", 1, 1), El("b", "string", 1, 1), El("a", "string", 1, 1), 1, "model">>,
   <<"seq", <<1, 1>>, El("a", "string", 1, 1), El("b", "Kid", 0, 1), El("a", "string", 1, 1), 2, "model">>,
-  <<"seq", <<1, 1>>, El("a", "string", 1, 1), BGrp("choice", <<1, 1>>, 1), El("a", "string", 1, 1), 3, "model">> }
+  <<"seq", <<1, 1>>, El("a", "string", 1, 1), BGrp("choice", <<1, 1>>, 1), El("a", "string", 1, 1), 3, "model">>,
+  \* element names that differ in a DTD and collide as Python class names (case, separators); both with element content / EMPTY
+  <<"seq", <<1, 1>>, El("item", "Kid", 1, 1), El("Item", "EMPTY", 0, 1), El("c", "string", 1, 1), 1, "model">>,
+  <<"seq", <<1, 1>>, El("item", "EMPTY", 1, U), El("Item", "Kid", 1, 1), [k |-> "none"], 3, "model">>,
+  <<"choice", <<0, U>>, El("a-b", "Kid", 1, 1), El("a_b", "EMPTY", 1, 1), El("a.b", "Rec", 1, 1), 1, "model">> }
 InitCorpus == \E c \in Corpus, i \in 0..MaxDocIdx : parts = Append(c, i)
 
 Root == Grp(parts[1], parts[2][1], parts[2][2], <<parts[3], parts[4]>> \o (IF parts[5].k = "none" THEN <<>> ELSE <<parts[5]>>))
